@@ -406,3 +406,64 @@ def family_Q(tier, seed, n=None):
                 for _ in range(3)]
         out.append({"id": "Q/%d" % t, "world": world, "ops": ops, "tags": ["enum"]})
     return out
+
+
+# ------------------------------------------------------------------------------------------
+# family Wd: wide fields (up to 64 bits): relations against boundary literals and between fields of different widths
+# and signedness; rows = real solutions, their single-field mutations over boundary values, random rows
+# ------------------------------------------------------------------------------------------
+def wlit(v, w, s):
+    return lit(v, w, s)
+
+
+def family_Wd(tier, seed, n=None):
+    out = []
+    n = n or (14 if tier == "quick" else 200)
+    widths = [13, 16, 31, 32, 33, 48, 63, 64]
+    for t in range(n):
+        core = t < n // 2
+        rnd = random.Random((6464 if core else 6500 + seed) * 100003 + t)
+        wa, wb = rnd.choice(widths), rnd.choice(widths)
+        sa, sb = rnd.random() < 0.4, rnd.random() < 0.4
+        fields = [fld("a", wa, sa), fld("b", wb, sb), fld("c", rnd.choice([8, 16, 32]), False, rand=False, init=rnd.randrange(200))]
+        kind = rnd.choice(["rel_lit", "rel_ff", "arith", "shift", "mask", "in"])
+
+        def blit(w, s):
+            """a literal near a boundary of a w-bit type"""
+            cands = [0, 1, (1 << (w - 1)) - 1, (1 << (w - 1)), (1 << w) - 1, (1 << min(w, 32)) - 1, 1 << 31, (1 << 32) - 1]
+            v = rnd.choice(cands) + rnd.choice([-1, 0, 0, 1])
+            v = max(0, min(v, (1 << w) - 1))
+            return v
+        if kind == "rel_lit":
+            v = blit(wa, sa)
+            body = [E(B(rnd.choice(RELS), F("a"), wlit(v, wa, False)))]
+            hints = {"o1.a": [v - 1, v, v + 1]}
+        elif kind == "rel_ff":
+            body = [E(B(rnd.choice(RELS), F("a"), F("b")))]
+            hints = {}
+        elif kind == "arith":
+            v = blit(max(wa, wb), False)
+            body = [E(B(rnd.choice(["eq", "le", "ge"]), B(rnd.choice(["add", "sub", "xor", "or"]), F("a"), F("b")), wlit(v, max(wa, wb), False)))]
+            hints = {"o1.a": [v, v >> 1], "o1.b": [v, 0, 1]}
+        elif kind == "shift":
+            k = rnd.randrange(1, min(wa, 40))
+            v = blit(wa, False)
+            body = [E(B(rnd.choice(["eq", "ne", "lt"]), B(rnd.choice(["sll", "srl"]), F("a"), lit(k)), wlit(v, wa, False)))]
+            hints = {"o1.a": [v >> k, (v << k) & ((1 << wa) - 1), v]}
+        elif kind == "mask":
+            m = rnd.getrandbits(wa) | 1
+            v = rnd.getrandbits(wa) & m
+            body = [E(B("eq", B("and", F("a"), wlit(m, wa, False)), wlit(v, wa, False)))]
+            hints = {"o1.a": [v, v | (~m & ((1 << wa) - 1)), v ^ 1]}
+        else:
+            lo = blit(wa, False)
+            hi = min((1 << wa) - 1, lo + rnd.choice([0, 1, 5, 1 << 20]))
+            body = [E({"k": "in", "e": F("a"), "items": [{"k": "r", "lo": wlit(lo, wa, False), "hi": wlit(hi, wa, False)},
+                                                          {"k": "v", "e": F("c")}], "neg": rnd.random() < 0.3})]
+            hints = {"o1.a": [lo - 1, lo, hi, hi + 1]}
+        world = one_class_world(fields, body)
+        ops = [{"op": "construct", "o": "o1"}, {"op": "call", "call": mcall()}, {"op": "call", "call": mcall()},
+               {"op": "probe", "call": wcall(), "paths": ["o1.a", "o1.b"], "mode": "around", "nsol": 3, "cap": 120, "hints": hints},
+               {"op": "probe", "call": wcall(), "paths": ["o1.a", "o1.b"], "cap": 60, "hints": hints}]
+        out.append({"id": "Wd/%s/%s/%d" % (kind, "core" if core else "s%d" % seed, t), "world": world, "ops": ops, "tags": ["wide"]})
+    return out
